@@ -26,9 +26,16 @@ type lbScn struct {
 		Nl     int    `json:"nl"`
 		Span   int    `json:"span"`
 		Pad    int    `json:"pad"`
+		Edge   string `json:"edge"`
+		Last   string `json:"last"`
+		Ow     bool   `json:"ow"`
 	} `json:"scn"`
 	Lines []struct {
-		Ks []int `json:"ks"`
+		Ps []struct {
+			K    int `json:"k"`
+			From int `json:"from"`
+			To   int `json:"to"`
+		} `json:"ps"`
 		G  struct {
 			X2 int `json:"x2"`
 			W  int `json:"w"`
@@ -58,15 +65,22 @@ func c11Main(args []string) int {
 				}
 			}
 			if sc.Span >= 2 && sc.Span <= len(sc.Words) && k == 1 {
-				b.WriteString(fmt.Sprintf(`<span style="padding:0 %dpx">`, sc.Pad*8))
+				switch sc.Edge {
+				case "margin":
+					b.WriteString(fmt.Sprintf(`<span style="margin:0 %dpx">`, sc.Pad*8))
+				case "border":
+					b.WriteString(fmt.Sprintf(`<span style="border:0 solid;border-width:0 %dpx">`, sc.Pad*8))
+				default:
+					b.WriteString(fmt.Sprintf(`<span style="padding:0 %dpx">`, sc.Pad*8))
+				}
 			}
 			b.WriteString(strings.Repeat(string(rune('a'+k)), l))
 			if sc.Span >= 2 && sc.Span <= len(sc.Words) && k == sc.Span-1 {
 				b.WriteString("</span>")
 			}
 		}
-		doc := fmt.Sprintf(`<html><head><style>@page{size:400px 2000px;margin:0} html,body{display:block;margin:0;padding:0} p{display:block;margin:0 0 0 16px;font-family:weasyprint;font-size:8px;line-height:10px;width:%dpx;text-align:%s;text-indent:%dpx;white-space:%s}</style></head><body><p>%s</p></body></html>`,
-			sc.W*8, sc.Align, sc.Indent*8, sc.Ws, b.String())
+		doc := fmt.Sprintf(`<html><head><style>@page{size:400px 2000px;margin:0} html,body{display:block;margin:0;padding:0} p{display:block;margin:0 0 0 16px;font-family:weasyprint;font-size:8px;line-height:10px;width:%dpx;text-align:%s;text-indent:%dpx;white-space:%s;text-align-last:%s;overflow-wrap:%s}</style></head><body><p>%s</p></body></html>`,
+			sc.W*8, sc.Align, sc.Indent*8, sc.Ws, sc.Last, map[bool]string{false: "normal", true: "break-word"}[sc.Ow], b.String())
 		pages, err := drv.Layout(doc, &drv.Opts{Engine: c11Engine})
 		if err != nil {
 			out.Fatal(err.Error())
@@ -122,6 +136,12 @@ func c11Main(args []string) int {
 		}
 		if sc.Span > 0 {
 			kind += ":inline-box"
+		}
+		if sc.Last != "auto" {
+			kind += ":align-last"
+		}
+		if sc.Ow {
+			kind += ":overflow-wrap"
 		}
 		// A second, non-greedy filling rule used ONLY to name a known class of disagreement: an inline box that does not
 		// fit entirely on the rest of the current line but fits on an empty one is moved whole to the next line.
@@ -187,7 +207,7 @@ func c11Main(args []string) int {
 			return out
 		}
 		fail := func(what string, j int) {
-			if sc.Span > 0 && sc.Ws == "normal" {
+			if sc.Span > 0 && sc.Ws == "normal" && !sc.Ow {
 				vt := variantTexts()
 				same := len(vt) == len(got)
 				for q := 0; same && q < len(vt); q++ {
@@ -214,8 +234,8 @@ func c11Main(args []string) int {
 		}
 		for j, w := range s.Lines {
 			var words []string
-			for _, k := range w.Ks {
-				words = append(words, strings.Repeat(string(rune('a'+k-1)), sc.Words[k-1]))
+			for _, it := range w.Ps {
+				words = append(words, strings.Repeat(string(rune('a'+it.K-1)), it.To-it.From+1))
 			}
 			wantText := strings.Join(words, " ")
 			g := got[j]
